@@ -143,9 +143,15 @@ def escaped_as_key(F, rep):
         per = 0
         for bi, t in f.calls():
             g = callee_generic(t) or callee_name(t) or ""
-            if not is_key_sink(g):
+            # a crate-local lookup method (FunctionRegistry::get and the like) is a key sink like the std ones: it is
+            # a thin wrapper over a map keyed by the Incan name
+            local_lookup = (callee_name(t) or "") in F.fns and g.split("::")[-1].split("<")[0] in KEY_METHODS \
+                and len(t["args"]) >= 2
+            if not is_key_sink(g) and not local_lookup:
                 continue
             hit = [i for i, o in enumerate(t["args"]) if op_place(o) is not None and op_place(o)["l"] in tainted]
+            if local_lookup:
+                hit = [i for i in hit if i >= 1]
             # argument 0 of a map method is the map itself
             hit = [i for i in hit if not (i == 0 and ("HashMap" in g or "HashSet" in g or "BTree" in g))]
             if not hit:
